@@ -21,6 +21,15 @@ class NoReplay(Exception):
     pass
 
 
+# Interface-typed inputs whose model value has no concrete dynamic type (the proof treats the methods as
+# uninterpreted): the replay tries each of these real values; a clause that evaluates to false for any of them
+# on the real code is a genuine counterexample.
+IFACE_CANDIDATES = {
+    MOD + "/secs2.Item": ["{q}NewEmptyItem()", "{q}NewIntItem(3)", "{q}NewASCIIItem(\"x\")", "{q}NewIntItem(4, 1, 2)",
+                          "{q}NewListItem({q}NewIntItem(3))", "{q}NewBinaryItem(1, 2, 3)"],
+}
+
+
 # ---------------------------------------------------------------- model search with shrinking
 
 def size_terms(v, t, out):
@@ -36,23 +45,46 @@ def size_terms(v, t, out):
 
 
 def find_model(ver, ob, extra_sizes=()):
+    from . import quant
     hyps, pc, goal = build_vc(ver, ob)
+    qf, full = quant.prepare(hyps, pc, goal)
+    for asserts in (qf, full):
+        if asserts is None:
+            continue
+        m, b = _find_model(ver, asserts, extra_sizes)
+        if m is not None:
+            return m, b
+    return None, b
+
+
+def _find_model(ver, asserts, extra_sizes=()):
     sizes = []
     for name, v, t in ver.input_vals:
         size_terms(v, t, sizes)
     sizes += list(extra_sizes)
     last = None
-    for bound in (8, 64, 4096, 1 << 20, None):
+    for bound in (8, 64, 4096, 1 << 20, 1 << 25, None):
         s = z3.Solver()
         s.set("timeout", 20000)
-        for h in hyps:
+        for h in asserts:
             s.add(h)
-        s.add(pc)
-        s.add(z3.Not(goal))
         if bound is not None:
             for sz in sizes:
                 s.add(z3.ULE(sz, z3.BitVecVal(bound, sz.size())))
         r = s.check()
+        if r == z3.unknown:
+            # lambda terms (bulk copies) make the array theory report 'incomplete' on some seeds: retry
+            for seed in range(1, 6):
+                s2 = z3.SolverFor("AUFBV") if seed == 1 else z3.Solver()
+                s2.set("timeout", 20000)
+                if seed > 1:
+                    s2.set("random_seed", seed)
+                for a in s.assertions():
+                    s2.add(a)
+                r = s2.check()
+                if r != z3.unknown:
+                    s = s2
+                    break
         if r == z3.sat:
             return s.model(), bound
         last = r
@@ -70,6 +102,7 @@ class GoGen:
         self.decls = []
         self.n = 0
         self.state = ver.pre_state
+        self.multi = None
 
     def ev(self, term):
         return self.m.eval(term, model_completion=True)
@@ -142,9 +175,11 @@ class GoGen:
             r = self.num(v.rid)
             if r == 0:
                 return "%s(nil)" % self.gotype(t)
+            et = t.elem()
+            if ln > 2048 and is_scalar_type(et) and ln <= (1 << 27):
+                return self.sparse_slice(v, t, ln)
             if ln > (1 << 20) or cap > (1 << 24):
                 raise NoReplay("model slice too large (len %d cap %d)" % (ln, cap))
-            et = t.elem()
             elems = [self.value(self.v.slice_get(self.state, v, idx(i)), et, depth + 1) for i in range(ln)]
             self.n += 1
             nm = "sl%d" % self.n
@@ -181,12 +216,59 @@ class GoGen:
             if 0 < tag <= len(t.prog.types):
                 dt = t.prog.types[tag - 1]
             if dt is None or dt.under().k == "iface":
+                cands = IFACE_CANDIDATES.get(t.name())
+                if cands and depth == 0:
+                    q = "" if self.pkg == t.name().rsplit(".", 1)[0] else t.name().rsplit(".", 1)[0].rsplit("/", 1)[-1] + "."
+                    if q:
+                        self.imports.add(t.name().rsplit(".", 1)[0])
+                    self.multi = (self.gotype(t), [c.replace("{q}", q) for c in cands])
+                    return "zzCand"
                 raise NoReplay("interface value with unknown dynamic type tag %d" % tag)
             inner = self.value(self.v.unbox(v, dt, self.state), dt, depth + 1)
             return "%s(%s)" % (self.gotype(t), inner) if self.gotype(t) == "any" else inner
         if k in ("sig", "chan", "map"):
             return "nil"
         raise NoReplay("cannot build a Go value of type %s" % t.s)
+
+    def sparse_slice(self, v, t, ln):
+        """Large slice of scalars: default value + the explicitly stored entries of the model's array."""
+        (_, _, arr), = self.v.region_arrays(self.state, v)
+        a = self.ev(arr)
+        off = self.num(v.off)
+        entries = {}
+        default = 0
+        cur = a
+        for _ in range(200000):
+            if z3.is_store(cur):
+                i, x = cur.arg(1), cur.arg(2)
+                if z3.is_bv_value(i):
+                    k = i.as_long() - off
+                    if 0 <= k < ln and k not in entries:
+                        entries[k] = x
+                cur = cur.arg(0)
+                continue
+            if z3.is_const_array(cur):
+                d = cur.arg(0)
+                default = d
+                break
+            if z3.is_as_array(cur) or z3.is_quantifier(cur) or True:
+                # function-graph / lambda model: sample the window ends and fall back to zero default
+                for k in list(range(0, min(ln, 64))) + list(range(max(0, ln - 64), ln)):
+                    entries.setdefault(k, self.ev(z3.Select(arr, v.off + idx(k))))
+                default = None
+                break
+        et = t.elem()
+        self.n += 1
+        nm = "sl%d" % self.n
+        self.decls.append("%s := make(%s, %d)" % (nm, self.gotype(t), ln))
+        if default is not None:
+            dv = self.value(default, et, 1)
+            zero = self.value(self.v.zero_value(et), et, 1)
+            if dv != zero:
+                self.decls.append("for i := range %s { %s[i] = %s }" % (nm, nm, dv))
+        for k in sorted(entries):
+            self.decls.append("%s[%d] = %s" % (nm, k, self.value(entries[k], et, 1)))
+        return nm
 
     def struct_lit(self, t, getter, depth):
         parts = []
@@ -393,6 +475,12 @@ def build_test(ver, ob, model, func, job):
         body.append('fmt.Printf("GOVC-REPLAY returned-normally\\n")')
     g.imports |= {"fmt", "testing"}
     imps = "\n".join('\t"%s"' % i for i in sorted(g.imports))
+    if g.multi is not None:
+        ty, cands = g.multi
+        inner = "\n\t\t".join(body)
+        src = ("package %s\n\nimport (\n%s\n)\n\nfunc TestZZGovcReplay(t *testing.T) {\n\tfor ci, zzCand := range []%s{%s} {\n\t\t_ = ci\n"
+               "\t\tfunc() {\n\t\t%s\n\t\t}()\n\t}\n}\n") % (func.pkg.name, imps, ty, ", ".join(cands), inner)
+        return src
     src = "package %s\n\nimport (\n%s\n)\n\nfunc TestZZGovcReplay(t *testing.T) {\n\t%s\n}\n" % (
         func.pkg.name, imps, "\n\t".join(body))
     return src
@@ -437,7 +525,7 @@ def verdict(rc, out, ob):
 def handle_failure(pid, job, repo, tier):
     name = job["name"]
     safe = re.sub(r"[^A-Za-z0-9_.@#-]+", "_", name)[:150]
-    path = os.path.join(ROOT, "replays", pid, safe + ".json")
+    path = os.path.join(os.environ.get("GOVC_REPLAYDIR") or os.path.join(ROOT, "replays"), pid, safe + ".json")
     rec = {"property": pid, "obligation": name, "kind": job.get("kind"), "function": job.get("func"),
            "clause": job.get("clause"), "status": job.get("result", {}).get("status", job.get("status")),
            "solver": job.get("result", {}).get("solver"), "solver_output": job.get("result", {}).get("detail") or job.get("detail"),
